@@ -566,7 +566,11 @@ fn pool_worker_loop(pool: Arc<ThreadPool>, timeout: Option<Duration>) {
                     .task_wakeup
                     .wait_timeout(records, time_to_deadline)
                     .unwrap();
-                if wait_result.timed_out() {
+                if wait_result.timed_out() && records.queue.is_empty() {
+                    // A submitter may have queued a task for this
+                    // worker (it still counted as available) after
+                    // the wait timed out but before the mutex was
+                    // re-acquired; only exit if there is no such task.
                     records.available_workers -= 1;
                     return;
                 } else {
